@@ -98,10 +98,16 @@ def explore(tier, seed, model_ok=True, focus=False):
     ex = merge_into(ex, ex2)
     from props import staking_pos_common as spc
     ex3 = spc.explore_staking_pos("C07", tier, seed, spc.monitors_c07, spc.nontrivial_c07, spc.RULE, model_ok, focus, scale=0.5)
-    return spc.merge_exploration(ex, ex3)
+    ex = spc.merge_exploration(ex, ex3)
+    # on-behalf endpoints of the three hosts with a real permissions hub (Model/FarmBehalf.v, Model/StakingBehalf.v)
+    from props import behalf_common as bc
+    return bc.merge(ex, bc.explore_behalf("C07", tier, seed, model_ok, focus, keys=bc.keys_c07))
 
 
 def replay(data):
+    if data.get("replay", {}).get("system") == "behalf":
+        from props import behalf_common as bc
+        return bc.replay_behalf(data, bc.keys_c07)
     if data.get("replay", {}).get("system") == "stakingpos":
         from props import staking_pos_common as spc
         return spc.replay_staking_pos(data, spc.monitors_c07)
